@@ -8,7 +8,9 @@ LEVEL = "model_checking"
 BOUNDS = {
     "quick": "two trains; ISI/SPIKE-Sync/order profiles and scalars with 0..3 spikes each (n1+n2<=4), SPIKE (plain and RI) "
              "with 0..2 spikes each; shift by a symbolic real, scaling by the dyadic factors 2, 1/4 and by 3 together with "
-             "MRTS and max_tau, reversal about the midpoint of the recording; MRTS/max_tau omitted and symbolic > 0; py and pyx",
+             "MRTS and max_tau, reversal about the midpoint of the recording; MRTS/max_tau omitted and symbolic > 0; py and pyx; "
+             "MRTS='auto' under shift (<= 2 spikes in total), reversal and scaling by 2 (ISI, up to 2+1 spikes); the same "
+             "SpikeTrain objects moved in place and re-evaluated with Reconcile=False (<= 2 spikes in total)",
     "thorough": "ISI/sync/order n1+n2<=6 (max 3 each), SPIKE n1+n2<=4 (max 3 each) for all transforms and parameter settings",
 }
 OUTSIDE = "symbolic scale factors (would make every branch condition non-linear); lists of more than two trains (C06 reduces them to pairs)"
